@@ -6,6 +6,7 @@ CONSTANTS
   DeepLock = TRUE
   BadSig = 2
   UnlockOnFail = FALSE
+  HotReload = FALSE
   MixinsUpdate = TRUE
 VIEW view
 INVARIANT UsedConsistent
